@@ -14,7 +14,14 @@ R3 get_tag: the accumulator starts from the constant "0", every token's `.tag` i
    longer string is a deeper tag.
 R4 job names: every `Job(...)` construction takes its name from `posixpath.join(<prefix>, <tag>)`
    (two operands, the second one a tag) or copies the name of another job; `get_job_step_name` is the
-   `parent` and `get_job_tag` the `name` of the POSIX path, i.e. the exact inverse of the join.
+   `parent` and `get_job_tag` the `name` of the POSIX path, i.e. the exact inverse of the join.  Every value
+   the two helpers can return is classified; accepted formulations of the split on the LAST "/" are
+   PurePosixPath(..).parent/.name/.parts[-1], posixpath.dirname/basename/split, rsplit('/', 1), rpartition('/'),
+   split('/')[-1] (subscripted or unpacked, through temporaries, `or '/'` fallback on the parent half).  A
+   formulation outside this list (regular expression, strip/replace, slicing by index arithmetic, an extra return
+   path) cannot be proven to be the inverse of the join: it is a finding of this obligation, not an analysis
+   error -- a regular expression over the tag alphabet is exactly how the split silently stops inverting the
+   join for tags such as 0.10.
 
 Deviations from DESIGN.md section 3 (C33):
 * R3: DESIGN says "strictly greater length".  `>=` is accepted as well: on a prefix chain (the property's
@@ -52,7 +59,9 @@ from ._util_A import (
     nonzero_test,
     only_via,
     origin_at,
+    rdefs,
     resolves_to,
+    scoped_binding,
     single_origin,
     split_dot,
     strip_await,
@@ -262,55 +271,159 @@ def r3(ctx):
 # --------------------------------------------------------------------------- R4
 
 
-def _path_inverse(ctx, f, want: str):
-    """get_job_step_name / get_job_tag return PurePosixPath(job_name).parent[.as_posix()|str] /.name
-    or posixpath.dirname / basename of the parameter."""
-    p = ctx.prog
-    ps = f.params
-    ctx.require(len(ps) == 1, f"C33.R4: {f.name} no longer has exactly one parameter")
-    rets = [n for n in f.body_nodes() if isinstance(n, ast.Return) and n.value is not None]
-    ctx.require(len(rets) == 1, f"C33.R4: {f.name} has {len(rets)} return statements (unsupported shape)")
-    o = single_origin(f, rets[0].value)
-    ctx.require(o is not None, f"C33.R4: {f.name}: return value has several origins")
-    e = o
-    # strip str(...) / .as_posix() / .__str__()
-    while True:
-        if isinstance(e, ast.Call) and isinstance(e.func, ast.Attribute) and e.func.attr in ("as_posix", "__str__") and not e.args:
+_PATH_CLASSES = ("PurePosixPath", "PosixPath", "PurePath")
+_ACCEPTED = "PurePosixPath(..).parent/.name, posixpath.dirname/basename/split, rsplit('/', 1), rpartition('/')"
+
+
+def _is_sep(e) -> bool:
+    return is_const(e, "/") or (e is not None and dotted(e) == "posixpath.sep")
+
+
+def _peel(f, e, or_sep: bool):
+    """Look through awaits, str(...) / .as_posix() / .__str__() wrappers, locals with a single origin and
+    (only for the `parent` half, `or_sep`) a trailing `or '/'` fallback for an empty parent."""
+    for _ in range(12):
+        e = strip_await(e)
+        if isinstance(e, ast.Call) and isinstance(e.func, ast.Attribute) and e.func.attr in ("as_posix", "__str__") and not e.args and not e.keywords:
             e = e.func.value
-        elif builtin_call(f, e, "str") is not None and len(e.args) == 1:
+        elif builtin_call(f, e, "str") is not None and len(e.args) == 1 and not e.keywords:
             e = e.args[0]
+        elif or_sep and isinstance(e, ast.BoolOp) and isinstance(e.op, ast.Or) and len(e.values) >= 2 and all(_is_sep(v) for v in e.values[1:]):
+            e = e.values[0]
+        elif isinstance(e, ast.Name):
+            o = single_origin(f, e)
+            if o is None or o is e:
+                break
+            e = o
         else:
             break
-    got = None
-    arg = None
-    chain = []
-    base = e
-    while isinstance(base, ast.Attribute):
-        chain.append(base.attr)
-        base = base.value
-    if chain and isinstance(base, ast.Call):
-        q = p.resolve_call(f, base, fanout=False)
-        if any(x.split(".")[-1] in ("PurePosixPath", "PosixPath", "PurePath") for x in q) and len(base.args) == 1:
-            got = ".".join(reversed(chain))
-            arg = base.args[0]
-    elif isinstance(e, ast.Call) and resolves_to(p, f, e, "posixpath.dirname", "posixpath.basename", "os.path.dirname", "os.path.basename") and len(e.args) == 1:
-        got = {"dirname": "parent", "basename": "name"}[dotted(e.func).split(".")[-1]]
-        arg = e.args[0]
-    if got is None:
-        # subscripts of split / rsplit on '/': recognise the two exact inverses, reject the rest
-        if isinstance(e, ast.Subscript) and isinstance(e.value, ast.Call) and isinstance(e.value.func, ast.Attribute) and e.value.func.attr in ("rsplit", "rpartition", "split"):
-            c = e.value
-            idx = const_value(e.slice)
-            if c.func.attr == "split" and len(c.args) == 1 and is_const(c.args[0], "/") and isinstance(idx, int):
-                got = "name" if idx == -1 else f"component[{idx}]"
-                arg = c.func.value
-            elif c.args and is_const(c.args[0], "/") and (c.func.attr == "rpartition" or (len(c.args) == 2 and is_const(c.args[1], 1))):
-                got = {0: "parent", -1: "name", 2 if c.func.attr == "rpartition" else 1: "name"}.get(idx)
-                arg = c.func.value
-        ctx.require(got is not None, f"C33.R4: {f.name} returns `{unparse(o)}`: unsupported shape")
-    arg_ok = arg is not None and isinstance(single_origin(f, arg), ast.Name) and single_origin(f, arg).id == ps[0]
-    ctx.ob("R4", f"{f.name} returns the `{want}` of the job name as a POSIX path", got == want and arg_ok, func=f, node=rets[0],
-           instance=f"{f.name}:inverse", message=f"{f.name} returns `.{got}` of `{unparse(arg) if arg is not None else '?'}`: it is not the inverse of posixpath.join(prefix, tag)")
+    return e
+
+
+def _unpacked(f, e):
+    """A local bound by sequence unpacking `a, b = <value>` denotes `<value>[i]`: (value, i), else None.
+    With one starred target the names after it are counted from the end."""
+    if not isinstance(e, ast.Name) or scoped_binding(e) is not None:
+        return None
+    nid = nid_of(f, e)
+    if nid is None:
+        return None
+    ds = rdefs(f, e.id, nid, use=e)
+    if len(ds) != 1 or ds[0].kind != "assign" or ds[0].index is None:
+        return None
+    d = ds[0]
+    tgts = d.stmt.targets if isinstance(d.stmt, ast.Assign) else [d.stmt.target]
+    for t in tgts:
+        if not isinstance(t, (ast.Tuple, ast.List)):
+            continue
+        star = [j for j, y in enumerate(t.elts) if isinstance(y, ast.Starred)]
+        for i, x in enumerate(t.elts):
+            if isinstance(x, ast.Name) and x.id == e.id:
+                if not star or i < star[0]:
+                    return d.value, i
+                return d.value, i - len(t.elts)
+    return None
+
+
+def _split_half(p, f, e, want: str):
+    """Which half of a POSIX path does `e` denote?  -> (got, subject): got in {'parent', 'name'} for the exact
+    inverses of posixpath.join(prefix, tag), another description for a recognised but different part, None when
+    the formulation is not one of the splits this rule can prove."""
+    e = _peel(f, e, want == "parent")
+    idx, recv = None, e
+    un = _unpacked(f, e)
+    if un is not None:
+        recv, idx = _peel(f, un[0], False), un[1]
+    elif isinstance(e, ast.Subscript):
+        v = const_value(e.slice)
+        if isinstance(v, int) and not isinstance(v, bool):
+            recv, idx = _peel(f, e.value, False), v
+        else:
+            return None, None
+    if idx is None:
+        chain, base = [], recv
+        while isinstance(base, ast.Attribute):
+            chain.append(base.attr)
+            base = base.value
+        base = _peel(f, base, False)
+        if chain and isinstance(base, ast.Call):
+            q = p.resolve_call(f, base, fanout=False)
+            if any(x.split(".")[-1] in _PATH_CLASSES for x in q) and len(base.args) == 1 and not base.keywords:
+                return ".".join(reversed(chain)), base.args[0]
+            return None, None
+        if isinstance(recv, ast.Call) and len(recv.args) == 1 and not recv.keywords:
+            if resolves_to(p, f, recv, "posixpath.dirname", "os.path.dirname"):
+                return "parent", recv.args[0]
+            if resolves_to(p, f, recv, "posixpath.basename", "os.path.basename"):
+                return "name", recv.args[0]
+        return None, None
+    # an element of a split
+    two = {0: "parent", -2: "parent", 1: "name", -1: "name"}
+    if isinstance(recv, ast.Attribute) and recv.attr == "parts":
+        base = _peel(f, recv.value, False)
+        if isinstance(base, ast.Call) and len(base.args) == 1 and not base.keywords:
+            q = p.resolve_call(f, base, fanout=False)
+            if any(x.split(".")[-1] in _PATH_CLASSES for x in q):
+                return ("name" if idx == -1 else f"parts[{idx}]"), base.args[0]
+        return None, None
+    if not isinstance(recv, ast.Call):
+        return None, None
+    if resolves_to(p, f, recv, "posixpath.split", "os.path.split"):
+        if len(recv.args) == 1 and not recv.keywords:
+            return two.get(idx, f"split[{idx}]"), recv.args[0]
+        return None, None
+    if not isinstance(recv.func, ast.Attribute) or recv.func.attr not in ("split", "rsplit", "partition", "rpartition"):
+        return None, None
+    meth, subject = recv.func.attr, recv.func.value
+    if not _is_sep(kwarg(recv, "sep", 0)):
+        return None, None  # split on something else than '/'
+    if meth == "rpartition":
+        return {0: "parent", -3: "parent", 2: "name", -1: "name"}.get(idx, f"rpartition('/')[{idx}]"), subject
+    if meth == "partition":
+        return f"partition('/')[{idx}] (split at the FIRST '/')", subject
+    ms = kwarg(recv, "maxsplit", 1)
+    if meth == "rsplit" and ms is not None and is_const(ms, 1):
+        return two.get(idx, f"rsplit('/', 1)[{idx}]"), subject
+    if ms is None or meth == "rsplit":
+        # all components (or the last n+1 pieces): only the last one is a half of the name
+        return ("name" if idx == -1 else f"component[{idx}]"), subject
+    return f"split('/', {unparse(ms)})[{idx}] (split at the FIRST '/')", subject
+
+
+def _path_inverse(ctx, f, want: str):
+    """get_job_step_name / get_job_tag return the `parent` / `name` half of the job name, in one of the exact
+    inverse formulations of posixpath.join(prefix, tag): PurePosixPath(job_name).parent[.as_posix()|str] / .name,
+    posixpath.dirname / basename / split, rsplit('/', 1), rpartition('/') (subscripted or unpacked, through
+    temporaries).  Every value the function can return is classified; a value whose formulation is not one of
+    these (a regular expression, index arithmetic, strip/replace, ...) cannot be shown to be the inverse and is a
+    finding of this obligation, not an analysis error."""
+    p = ctx.prog
+    ps = f.params
+    ctx.require(len(ps) >= 1, f"C33.R4: {f.name} lost its job-name parameter")
+    rets = [n for n in f.body_nodes() if isinstance(n, ast.Return)]
+    bad = []
+    if not any(r.value is not None for r in rets):
+        bad.append(f"{f.name} returns no value")
+    falls = [a for a, _k in f.cfg.pred[f.cfg.exit] if f.cfg.nodes[a].kind != "return"]
+    if falls and not bad:
+        bad.append(f"a path leaves {f.name} without returning a half of the job name")
+    for r in rets:
+        if r.value is None:
+            bad.append(f"{f.name} has a bare `return`")
+            continue
+        for o in origin_at(f, r.value):
+            got, subject = _split_half(p, f, o, want)
+            if got is None:
+                bad.append(f"{f.name} returns `{unparse(o)}`: this formulation cannot be shown to be the `{want}` half of "
+                           f"posixpath.join(prefix, tag) (accepted exact inverses: {_ACCEPTED})")
+                continue
+            so = _peel(f, subject, False)
+            if not (isinstance(so, ast.Name) and so.id == ps[0] and (d := name_def(f, so)) is not None and d.kind == "param"):
+                bad.append(f"{f.name} splits `{unparse(subject)}`, not its job-name parameter `{ps[0]}`")
+            elif got != want:
+                bad.append(f"{f.name} returns `{got}` of `{unparse(subject)}` (expected `{want}`): it is not the inverse of posixpath.join(prefix, tag)")
+    ctx.ob("R4", f"{f.name} returns the `{want}` of the job name as a POSIX path", not bad, func=f, node=(rets[0] if rets else f.node),
+           instance=f"{f.name}:inverse", message="; ".join(bad))
 
 
 def _is_tag_like(p, f, e, nid) -> bool:
@@ -457,6 +570,30 @@ VARIANTS = [
       "    for i in range(len(list1)):\n        d = int(list1[i]) - int(list2[i])\n        if d == 0:\n            continue\n        return d", None),
     V("benign: get_tag compares component counts", UFILE, GT, "len(tag) > len(output_tag)", "len(tag.split('.')) > len(output_tag.split('.'))", None),
     V("benign: get_job_step_name via rsplit", UFILE, f"{UT}.get_job_step_name", "PurePosixPath(job_name).parent.as_posix()", "job_name.rsplit('/', 1)[0]", None),
+    # R4: formulations of the split that cannot be proven to be the inverse of the join are findings (never exit 2)
+    V("get_job_step_name: tag stripped by a precompiled regular expression (seeded 3)", UFILE, f"{UT}.get_job_step_name", "return PurePosixPath(job_name).parent.as_posix()",
+      "return _JOB_TAG_SUFFIX.sub('', job_name) or posixpath.sep", "R4", control=True,
+      append="import re\n_JOB_TAG_SUFFIX = re.compile('/\\\\d+(\\\\.\\\\d)*$')\n"),
+    V("get_job_step_name: inline re.sub into a temporary", UFILE, f"{UT}.get_job_step_name", "return PurePosixPath(job_name).parent.as_posix()",
+      "step_name = re.sub('/[0-9.]*$', '', job_name)\n    return step_name", "R4"),
+    V("get_job_step_name: trailing digits stripped", UFILE, f"{UT}.get_job_step_name", "return PurePosixPath(job_name).parent.as_posix()", "return job_name.rstrip('0123456789.').rstrip('/')", "R4"),
+    V("get_job_step_name: slice up to rfind", UFILE, f"{UT}.get_job_step_name", "return PurePosixPath(job_name).parent.as_posix()", "return job_name[:job_name.rfind('/')]", "R4"),
+    V("get_job_step_name: wrong half of posixpath.split", UFILE, f"{UT}.get_job_step_name", "return PurePosixPath(job_name).parent.as_posix()", "return posixpath.split(job_name)[1]", "R4"),
+    V("get_job_tag: partition at the first '/'", UFILE, f"{UT}.get_job_tag", "return PurePosixPath(job_name).name", "return job_name.partition('/')[2]", "R4"),
+    V("get_job_tag: unpacked halves swapped", UFILE, f"{UT}.get_job_tag", "return PurePosixPath(job_name).name", "tag, _, _prefix = job_name.rpartition('/')\n    return tag", "R4"),
+    V("get_job_tag: whole name returned on one path", UFILE, f"{UT}.get_job_tag", "return PurePosixPath(job_name).name",
+      "if '.' not in job_name:\n        return job_name\n    return PurePosixPath(job_name).name", "R4"),
+    V("get_job_tag: splits a normalised copy of the name", UFILE, f"{UT}.get_job_tag", "return PurePosixPath(job_name).name", "job_name = job_name.rstrip('.0')\n    return posixpath.basename(job_name)", "R4"),
+    V("get_job_tag: rsplit on '.'", UFILE, f"{UT}.get_job_tag", "return PurePosixPath(job_name).name", "return job_name.rsplit('.', 1)[-1]", "R4"),
+    V("benign: get_job_step_name via posixpath.split subscript", UFILE, f"{UT}.get_job_step_name", "return PurePosixPath(job_name).parent.as_posix()", "return posixpath.split(job_name)[0]", None),
+    V("benign: get_job_step_name via unpacked posixpath.split", UFILE, f"{UT}.get_job_step_name", "return PurePosixPath(job_name).parent.as_posix()", "head, _tail = posixpath.split(job_name)\n    return head", None),
+    V("benign: get_job_step_name via rsplit with maxsplit keyword and root fallback", UFILE, f"{UT}.get_job_step_name", "return PurePosixPath(job_name).parent.as_posix()",
+      "return job_name.rsplit(posixpath.sep, maxsplit=1)[0] or '/'", None),
+    V("benign: get_job_step_name via posixpath.dirname of a PurePosixPath-free temporary", UFILE, f"{UT}.get_job_step_name", "return PurePosixPath(job_name).parent.as_posix()",
+      "parent = posixpath.dirname(job_name)\n    logger.debug(parent)\n    return str(parent)", None),
+    V("benign: get_job_tag via unpacked rpartition", UFILE, f"{UT}.get_job_tag", "return PurePosixPath(job_name).name", "_prefix, _sep, tag = job_name.rpartition('/')\n    return tag", None),
+    V("benign: get_job_tag via starred unpacking of split", UFILE, f"{UT}.get_job_tag", "return PurePosixPath(job_name).name", "*_, tag = job_name.split('/')\n    return tag", None),
+    V("benign: get_job_tag via the last of PurePosixPath.parts", UFILE, f"{UT}.get_job_tag", "return PurePosixPath(job_name).name", "path = PurePosixPath(job_name)\n    return path.parts[-1]", None),
     V("benign: ScheduleStep job name into a local first", SFILE, SS,
       "job = Job(name=posixpath.join(self.job_prefix, tag), workflow_id",
       "job_name = posixpath.join(self.job_prefix, tag)\n                        logger.debug(job_name)\n                        job = Job(name=job_name, workflow_id", None),
